@@ -1063,7 +1063,10 @@ def run(ctx):
         ctx.tie[k + ":dist_haversine"] = "translated (pyx2coq)" if not v else "TRANSLATION FAILED: " + v
         if v:
             tie_broken.append("translation of estimator.pyx: " + v)
-    for f in ("latlon2pos", "pos2latlon", "chordal_to_great_circle", "great_circle_to_chordal", "set_angles", "set_anis", "rotation_planes",
+    for f in ("great_circle_to_chordal", "chordal_to_great_circle"):
+        ctx.tie[f] = ("translated (py2coq, gen/Formulas_gen.v) + tie theorem C13_tie_%s (model = translated formula, every number type)"
+                      " + correspondence" % f)
+    for f in ("latlon2pos", "pos2latlon", "set_angles", "set_anis", "rotation_planes",
               "givens_rotation", "matrix_rotate/derotate/isometrize/anisometrize", "set_len_anis", "set_model_angles",
               "CovModel.__init__/set_dim (lat-lon, temporal part)", "CovModel len_scale/anis/angles setters", "CovModel.isometrize/anisometrize",
               "cov_yadrenko", "Krige._get_krige_mat/_get_krige_vecs (covariance system)", "standard_bins(latlon) max_dist", "fit._check_vario lag conversion"):
